@@ -209,6 +209,18 @@ def history_rules(R):
     keep = CallGuard([PQ + "::is_newer_than"], ("false",), "the kept quote is not newer than the incoming one", arg_pred=hist_is_newer)
     none = CallGuard(GET, ("None",), "no quote kept for this peer yet")
     R.gate("C13.history.keep", vp, INS, [[keep, none]], descr="the reference quote of a peer is replaced only by a quote that is not older")
+    # … and the reference is changed nowhere else: a history that is pruned (by age, by size, "expired quotes cannot be paid with any
+    # more") forgets the figures the next quote of that peer has to be judged against
+    sites = R.who_may_write("C13.history.own", "ant_networking::driver::SwarmDriver", "quotes_history", [VPQ, "ant_networking::driver::NetworkBuilder::build"], floor=1,
+                            descr="the per-peer reference quote is changed only by verify_peer_quote (its insert is gated by C13.history.keep)")
+    from props.C08 import on_field
+    REMOVERS = ["alloc::collections::btree::map::BTreeMap::" + x for x in ("remove", "remove_entry", "retain", "clear", "pop_first", "pop_last", "split_off", "extract_if", "first_entry", "last_entry", "entry", "get_mut", "values_mut", "iter_mut", "append")] + \
+               ["std::collections::hash::map::HashMap::" + x for x in ("remove", "remove_entry", "retain", "clear", "drain", "entry", "get_mut", "values_mut", "iter_mut")]
+    odd = on_field(REMOVERS, "quotes_history")(vp)
+    if odd:
+        t_ = g.term(odd[0])
+        R.viol("C13.history.own", "history-mutated:%s" % (t_.get("ncallee") or "?").split("::")[-1], "verify_peer_quote changes the quote history through %s: only the gated insert decides what the reference is" % t_.get("ncallee"), vp, t_.get("l"))
+    R.inst("C13.history.own", "K2 mutator whitelist", "inside verify_peer_quote the history is only read (get) and written by insert", len(INS.blocks(vp)), not odd)
     # inconsistent ⇒ flagged, and not stored
     hv = CallGuard([PQ + "::historical_verify"], ("true",), "history_quote.historical_verify(&quote)")
     n, acc, rej = hv.edges(vp)
